@@ -66,6 +66,21 @@ def units(rng, tier):
     hard = [cv for i, cv in enumerate(cand) if isinstance(res[2 * i], dict) and "ok" in res[2 * i] and len(res[2 * i]["ok"]) > res[2 * i + 1]]
     for C, v in hard[:400 if tier == "quick" else 4000]:
         us += group(rng, C, v, "bfd-suboptimal(screened)")
+    # (3) beyond the oracle's size: 9..13 items on which the MODEL's search improves on best-fit-decreasing (so the answer depends on
+    # which branches are kept and which are pruned); the implementation's count is compared with the model's
+    cand = []
+    for _ in range(8000 if tier == "quick" else 60000):
+        C = rng.choice([10, 20, 30, 50, 100])
+        cand.append((C, [rng.randint(1, C) for _ in range(rng.randint(9, 13))]))
+    lines = []
+    for C, v in cand:
+        lines.append(runner.model_line("bfd", [0, C, v, v]))
+        lines.append(runner.model_line("bc", [0, C, 200000, v]))
+    res = runner.run_model(lines)
+    for i, (C, v) in enumerate(cand):
+        a, b = res[2 * i], res[2 * i + 1]
+        if isinstance(a, dict) and isinstance(b, dict) and "ok" in a and "ok" in b and len(a["ok"]) > len(b["ok"]):
+            us += group(rng, C, v, "search-improves-on-bfd(screened,9-13 items)")
     for _ in range(220 if tier == "quick" else 3000):
         C, vals, fam = gen.packing_instance(rng, nmax=11, family=rng.choice([None, None, "perfect", "thresholds"]))
         vals = [v for v in vals if v >= 1][:11]
